@@ -25,7 +25,7 @@ RULE = (
 )
 ASSUMPTIONS = ["acceptance of words longer than L (8 quick / 11 thorough) is covered only through automaton-vs-automaton equivalence",
                "reads only states/transitions/initial_state/final_states of automata-lib DFA objects"]
-REQUIRED = ["calls.PinWords.make_dfa_for_perm", "calls.PinWords.make_dfa_for_basis_from_pinwords", "calls.PinWords.make_dfa_for_basis_from_db",
+REQUIRED = ["planted.words_decided", "calls.PinWords.make_dfa_for_perm", "calls.PinWords.make_dfa_for_basis_from_pinwords", "calls.PinWords.make_dfa_for_basis_from_db",
             "calls.PinWords.has_finite_pinperms", "words.decided", "words.accepted", "words.rejected", "equivalence.checked", "finite.true", "finite.false",
             "counts.lengths_checked", "nonpin.bases"]
 MIN_NONTRIVIAL = 500
@@ -185,7 +185,36 @@ def chk_basis(ctx, basis, label="driver"):
         report("basis", [basis, label], f"has_finite_pinperms differs by source: scratch {a}, db {b}, given dfa {c}")
 
 
-CHECKS = {"basis": chk_basis}
+def chk_planted(ctx, m, seed):
+    """a long basis element given by a pin sequence m (8-9 letters, self-overlapping ones favoured): pin sequences in which m
+    is planted after one of its own prefixes (so that a match starts inside a failed attempt) are judged by real containment"""
+    import random
+
+    rng = random.Random(seed)
+    u = P.m_to_sp(m)
+    b = P.perm_of_word(u)
+    dfa = PinWords.make_dfa_for_perm(Perm(b))
+    A = AU.read(dfa)
+    words = set()
+    for k in range(len(m) + 1):
+        for tail in ("", rng.choice("ULDR"), rng.choice("ULDR") + rng.choice("ULDR")):
+            for w in (m[:k] + m + tail, m[:k] + m[1:] + tail, m[:k] + m[:-1] + tail):
+                if P.in_m(w) and len(w) <= 16:
+                    words.add(w)
+    for w in sorted(words):
+        want = contains_basis(w, [b])
+        got = AU.accepts(A, w)
+        ctx.ev()
+        ctx.count("planted.words_decided")
+        if want:
+            ctx.nt(("planted", m, w))
+        if got is not want:
+            report("planted", [m, seed], f"automaton of {b} (pin sequence {m}) {'accepts' if got else 'rejects'} {w!r} but its pin permutation "
+                   f"{perm_of_mword(w)} {'contains' if want else 'avoids'} it")
+            return
+
+
+CHECKS = {"basis": chk_basis, "planted": chk_planted}
 
 
 def plan(tier, seed):
@@ -203,6 +232,7 @@ def plan(tier, seed):
     parts = 16
     specs = [{"name": f"bases-{i}", "kind": "bases", "bases": bases[i::parts], "rand": max(0, nrand // parts + (i < nrand % parts))} for i in range(parts)]
     specs.append({"name": "nonpin", "kind": "nonpin", "count": 2 if tier == "quick" else 3})
+    specs.append({"name": "planted", "kind": "planted", "count": 6 if tier == "quick" else 40})
     return specs
 
 
@@ -228,6 +258,17 @@ def nonpin_bases(rng):
 
 def run(ctx, spec):
     rng = ctx.rng
+    if spec.get("kind") == "planted":
+        fixed = ["URULURUL", "ULURULUR", "RURDRURD", "DLDRDLDR"]
+        for i in range(spec["count"]):
+            if i < len(fixed):
+                m = fixed[i]
+            else:
+                half = rng.choice(P.m_words(4))
+                m = half + half if P.in_m(half + half) else rng.choice(P.m_words(8))
+            chk_planted(ctx, m, rng.randrange(10 ** 9))
+        ctx.sample({"planted_pin_sequence": m})
+        return
     if spec.get("kind") == "nonpin":
         for basis in nonpin_bases(rng)[: spec["count"]]:
             chk_basis(ctx, basis)
